@@ -505,6 +505,10 @@ func (s stubCache) DB(string) numbercache.ICache[uint64] { return s }
 
 var inited bool
 
+// ShrinkPools is set by the optional overlay (build tag verifopt): it lowers the initial capacity of pooled columns,
+// which only makes executions cheaper.  Without it the production capacities are used.
+var ShrinkPools func()
+
 func initGlobals() {
 	if inited {
 		return
@@ -514,7 +518,9 @@ func initGlobals() {
 	logger.Logger.SetOutput(io.Discard)
 	config.Cloki = &clconfig.ClokiConfig{Setting: &clcfg.ClokiBaseSettingServer{}}
 	service.CreateColPools(0)
-	service.VerifShrinkPools()
+	if ShrinkPools != nil {
+		ShrinkPools()
+	}
 	scanErrTexts()
 	controllerv1.FPCache = stubCache{}
 }
